@@ -90,3 +90,15 @@ package peering
 //@   arith int
 //@   requires ph != nil
 //@   ensures[addrs] result == ph.addrs
+
+// ---- C46: Stop is final whatever state the service was in ------------------------------------------
+// (also before the first Start: a stopped service must not become startable again), and every handler
+// known at that moment is stopped
+//@ func (*PeeringService).Stop
+//@   prop C46
+//@   arith int
+//@   requires ps != nil
+//@   requires[a_known_state] ps.state == StateInit || ps.state == StateRunning || ps.state == StateStopped
+//@   requires[handlers_exist] all(p peer.ID, has(ps.peers, p) ==> ps.peers[p] != nil)
+//@   modifies all
+//@   ensures[stopped_for_good] ps.state == StateStopped
